@@ -33,6 +33,35 @@ CLAIMED = {
             "eps; ranks capped; operand not written).",
             "does not decide the eps bound in floating point nor QR/SVD accuracy",
             "DESIGN.md section 4 C02"),
+    "C03": ("contraction-structure type checking: abstract interpretation of the core-building code over symbolic sizes and contraction networks (merged / block-partitioned axes), per position class and structural path, compared by canonical form with chain specifications; name resolution; definite assignment; dtype rule",
+            "Exact-arithmetic identity for every order d and every mode/rank size: each arithmetic entry point (+, -, *, scalar ops from "
+            "both sides, unary minus, scalar division, Kronecker product, full(), factories) is typed on every structural path "
+            "(operand kinds, equal vs broadcast shapes, zero scalar, d = 1) and every position class; the produced cores must be the "
+            "specified sum-strand / product-strand / concatenated chain with one scalar factor per strand (Lemmas 1-3, DESIGN.md App. A).",
+            "exact arithmetic; torch primitive semantics as modelled in ttsa/e5/net.py; scalar operands treated as real under conjugation",
+            "DESIGN.md section 4 C03, section 3 E5"),
+    "C04": ("contraction-structure type checking: abstract interpretation of the core-building code over symbolic sizes and contraction networks (merged / block-partitioned axes), per position class and structural path, compared by canonical form with chain specifications",
+            "Same for TT-matrix algebra: A@x, x@A, A@B (row/column modes are distinct roles), A@dense as a sweep invariant valid for any "
+            "number of leading batch axes, transpose, operator +, -, *, scalar ops, operator full() for d <= 3.",
+            "exact arithmetic; operator full() de-interleaving is decided for concrete orders 1..3 only",
+            "DESIGN.md section 4 C04"),
+    "C07": ("sweep-state typing (E5, Lemma 3) of norm/dot/sum/bilinear form; structural QR-carry rule; name resolution incl. installed "
+            "third-party namespace; definite assignment; axis-range rule",
+            "For the Gram-chain norm (tensor/operator, squared/plain), dot (full), sum over all modes and the bilinear form: initial "
+            "state, one generic loop step and the closing expression are the specified contraction networks (open bonds, conjugated "
+            "operand, tied/summed modes) for every order incl. d = 1; the QR branch of norm is decided structurally; every order reaches "
+            "a value (definite assignment, attribute existence).",
+            "partial sums / dot along selected modes are decided for concrete small orders only (see evidence); numerical stability is not decided",
+            "DESIGN.md section 4 C07"),
+    "C09": ("contraction-structure type checking: abstract interpretation of the core-building code over symbolic sizes and contraction networks (merged / block-partitioned axes), per position class and structural path, compared by canonical form with chain specifications",
+            "diag (both directions), to_ttm, conj, clone per position class; cat/pad/mprod scenarios as listed in the evidence.",
+            "exact arithmetic", "DESIGN.md section 4 C09"),
+    "C20": ("sweep-state typing (E5) of LinearLayerTT.forward over a symbolic number of batch axes + parameter-registration rule on __init__",
+            "forward is the specified sweep: each tensordot contracts the first remaining input mode with the core's column axis and the "
+            "running bond with the core's left bond; produced row modes are appended in order; bias added over the produced modes; "
+            "__init__ registers cores/bias as parameters with rows = output sizes in both initialiser branches.",
+            "gradients follow from autograd's chain rule once the forward value is the specified polynomial (C15); initialiser variance not decided",
+            "DESIGN.md section 4 C20"),
     "C05": ("class-invariant check: constructor coverage (FIELDS), guard table and axis derivation (ESTABLISH), writer "
             "obligations (PRESERVE), who-may-write over effect summaries (WHO-WRITES), constructor-argument kinds (CTOR-ARG), "
             "getter copy rule",
